@@ -530,6 +530,20 @@ def rule_sandwich(ck: Check, repo: Repo, tr: Transducer, qual: str, fn) -> None:
         r.floor(3000, "globs examined", got=total)
 
 
+def _matches_operand(fn: ast.FunctionDef) -> str:
+    """What the one `.matches(X)` call of *fn* receives, read through the local that names it."""
+    from ..rules import reaching_value
+    calls = find_calls(fn, lambda c, f: f.endswith(".matches"))
+    if len(calls) != 1 or len(calls[0].args) != 1:
+        return "?"
+    a = calls[0].args[0]
+    if isinstance(a, ast.Name):
+        v = reaching_value(fn, a)
+        if v is not None:
+            return ast.unparse(v)
+    return ast.unparse(a)
+
+
 def rule_attribution(ck: Check, repo: Repo) -> None:
     r = ck.rule("R3", "annotations match the POSIX path relative to the REUSE.toml's directory")
     T = f"{GL}.ReuseTOML"
@@ -538,6 +552,9 @@ def rule_attribution(ck: Check, repo: Repo) -> None:
         ck.analysed_fn(q)
         ok = any(isinstance(n, ast.Assign) and ast.unparse(n.value) == "PurePath(path).as_posix()"
                  and ast.unparse(n.targets[0]) == "path" for n in fn.body)
+        if not ok and q.endswith(".find_annotations_item"):
+            # the same normalisation under another local name: what matters is the operand of matches()
+            ok = _matches_operand(fn) == "PurePath(path).as_posix()"
         r.instance(q, {"posix_normalised": ok}, q)
         if not ok:
             r.violation(q, "path not normalised to POSIX form",
@@ -546,7 +563,7 @@ def rule_attribution(ck: Check, repo: Repo) -> None:
     c04.selection_table(r, repo)
     fa = repo.func(f"{T}.find_annotations_item")
     calls = find_calls(fa, lambda c, f: f.endswith(".matches"))
-    if len(calls) != 1 or ast.unparse(calls[0].args[0]) != "path":
+    if len(calls) != 1 or _matches_operand(fa) != "PurePath(path).as_posix()":
         r.violation(f"{T}.find_annotations_item", "matches() operand", "items must be matched against the posix path",
                     repo.loc(fa))
     nq = f"{GL}.NestedReuseTOML._find_relevant_tomls_and_items"
